@@ -279,7 +279,7 @@ class Sym:
     """
 
     def __init__(self, f: FuncInfo, cfg: CFG = None, rd: ReachingDefs = None,
-                 inliner: Optional[Callable] = None, max_depth: int = 12):
+                 inliner: Optional[Callable] = None, max_depth: int = 60):
         self.f = f
         self.cfg = cfg or CFG(f.node)
         self.rd = rd or ReachingDefs(f, self.cfg)
